@@ -10,7 +10,7 @@ LEVEL_TEXT = ("Static structural proof of necessary conditions: (R20.1) in Event
               "in the open-process table is given an end (popped-and-ended, or ended by the final sweep), duration "
               "events get their end before they are listed, and the context extraction runs only after the sweep. "
               "Interval arithmetic, boundary cases, equal-onset rows and Delay shifting are NOT decided.")
-LEVEL_EXTRA = "Added after the seeded evaluation: (R20.3) after Delay splitting, counts come from the split table; (R20.4) fresh index per Delay-shifted group; (R20.5) every access to the open-process table case-folds the definition name. (R20.6) the type/definition filter of unfold_context mutates neither its argument nor the manager's state. (R20.7) the context range of a process starts at the next time point, computed from the onsets. R20.3 also covers the consumers of the event manager (results sized by its time points, not by the input table). (R20.8) no join over a de-duplicated collection where row/process texts are combined."
+LEVEL_EXTRA = "Added after the seeded evaluation: (R20.3) after Delay splitting, counts come from the split table; (R20.4) fresh index per Delay-shifted group; (R20.5) every access to the open-process table case-folds the definition name. (R20.6) the type/definition filter of unfold_context mutates neither its argument nor the manager's state. (R20.7) the context range of a process starts at the next time point, computed from the onsets. R20.3 also covers the consumers of the event manager (results sized by its time points, not by the input table). (R20.8) no join over a de-duplicated collection where row/process texts are combined. (R20.9) a parameter is handed on to every repository callee that takes a parameter of the same name (11 frozen exceptions package-wide)."
 
 
 def _raising_guard(ctx, fi, word):
@@ -257,6 +257,11 @@ def run(ctx):
 
     # ---------------- R20.8: what is joined into a time point's text keeps every piece (equal pieces are different processes)
     join_dedupe_rule(ctx, "R20.8", ("hed.tools.analysis.event_manager", "hed.models.df_util", "hed.tools.analysis.hed_tag_manager"), 3)
+
+    # ---------------- R20.9: parameters are handed on to same-named parameters of repository callees
+    from sa.forward import check_forwarding
+    nfw = check_forwarding(ctx, "R20.9", [f for f in prog.functions.values() if f.module.name.startswith(('hed.tools.analysis',))], 'e.g. remove_types, the schema')
+    ctx.floor("R20.9", "same-named parameter sites", nfw, 1)
 
 
 def join_dedupe_rule(ctx, rule, modules, floor):
